@@ -86,7 +86,7 @@ def gen_case(rng, unique=True):
     return {"text": text, "spans": spans, "base": base, "width": width,
             "justify": rng.choice(JUSTIFY), "overflow": rng.choice(OVERFLOW) if rng.random() < 0.6 else "fold",
             "no_wrap": rng.random() < 0.15, "tab_size": rng.choice([8, 4, 2]), "unique": unique,
-            "mode_route": rng.choice(["args", "args", "args", "own", "conflict"]),
+            "mode_route": rng.choice(["args", "args", "args", "own", "conflict", "render"]),
             "own_mode": (rng.choice(JUSTIFY), rng.choice(OVERFLOW), rng.random() < 0.3)}
 
 
@@ -99,12 +99,31 @@ def make_text(case, rng):
     # where the wrapping mode comes from: the arguments of wrap() (default), the Text's own attributes (wrap() is
     # then called without them), or both - differing - in which case the explicit arguments decide
     route = case.get("mode_route", "args")
-    if route == "own":
+    if route == "render":
+        # the text goes through the console (print / a container): its own justify / overflow / no_wrap - no_wrap
+        # explicitly False or True - decide, the options handed down by the caller are the fallback only
+        t.justify, t.overflow, t.no_wrap = case["justify"], case["overflow"], bool(case["no_wrap"])
+    elif route == "own":
         from rv.gen.specs import _rt
         t.justify, t.overflow, t.no_wrap = _rt(case["justify"]), _rt(case["overflow"]), case["no_wrap"]
     elif route == "conflict":
         t.justify, t.overflow, t.no_wrap = case["own_mode"]
     return t
+
+
+class RenderedLine:
+    """A line as Console.render_lines hands it over, with the little of Text's interface the oracles use."""
+
+    def __init__(self, segments):
+        self.segments = [seg for seg in segments if not seg.is_control]
+        self.plain = "".join(seg.text for seg in self.segments)
+        self.spans = "(rendered through the console)"
+
+    def __len__(self):
+        return len(self.plain)
+
+    def render(self, console):
+        return iter(self.segments)
 
 
 def wrap_args(case):
@@ -161,7 +180,15 @@ def check_one(ctx, rng, case, primary=True):
         while len(first):
             first.pop()
         ctx.count("mon.result_poisoning")
-    lines = text.wrap(console(), width, tab_size=case["tab_size"], **wrap_args(case))
+    if case.get("mode_route") == "render":
+        # (through the console tabs are expanded with the CONSOLE's tab size - 8 - whatever the text's own is)
+        case["tab_size"] = 8
+        ctx.count("mon.wrapped_by_the_console")
+        oj, oo, on = case["own_mode"]
+        opts = console().options.update(width=width, justify=oj, overflow=oo, no_wrap=not case["no_wrap"])
+        lines = [RenderedLine(l) for l in console().render_lines(text, opts, pad=False)]
+    else:
+        lines = text.wrap(console(), width, tab_size=case["tab_size"], **wrap_args(case))
     ctx.hist("mode_route", case.get("mode_route", "args"))
     lines = list(lines)
     fold = case["overflow"] == "fold" and not case["no_wrap"]
